@@ -1038,10 +1038,13 @@ def _char_indices_next(w, m, st, callee, args, term):
 
 
 def _lazy_get(w, m, st, callee, args, term):
-    r = m.call_value(st, args[1], [], term)
-    if isinstance(r, tuple) and r and r[0] is INLINE:
-        return (INLINE, r[1], r[2], lambda mm, ss, v: Ref(("val", v)))
-    return Ref(("val", r))
+    from . import oncecell
+
+    # get_or_init / force panic only when the initialiser panics (it is interpreted right here, like any callee) or
+    # when it re-enters its own cell (which would show up as recursion): the site is discharged by that
+    if hasattr(w, "visited_sites"):
+        w.visited_sites.add(w.site(st))
+    return oncecell.access(m, st, callee, args, term)
 
 
 SPECIAL = {
@@ -1056,6 +1059,9 @@ SPECIAL = {
     "core::str::<impl str>::char_indices": _char_indices,
     "<core::str::iter::CharIndices<'a> as core::iter::traits::iterator::Iterator>::next": _char_indices_next,
     "lazy_static::lazy::Lazy::<T>::get": _lazy_get,
+    "std::sync::once_lock::OnceLock::<T>::get_or_init": _lazy_get,
+    "<std::sync::lazy_lock::LazyLock<T, F> as core::ops::deref::Deref>::deref": _lazy_get,
+    "std::sync::lazy_lock::LazyLock::<T, F>::force": _lazy_get,
 }
 MODELLED_HERE = set(SPECIAL)
 OVERRIDE_DEFAULT = set()
